@@ -4133,6 +4133,11 @@ where
                 }
 
                 candidate.tri.validation_policy = self.tri.validation_policy;
+                // The rebuilt candidate replaces `self`: keep the global topology (e.g. the toroidal
+                // domain) so that later insertions are still canonicalized into it.
+                candidate
+                    .tri
+                    .set_global_topology(self.tri.global_topology());
                 candidate.insertion_state.delaunay_repair_policy =
                     self.insertion_state.delaunay_repair_policy;
                 candidate.insertion_state.delaunay_check_policy =
